@@ -2,6 +2,8 @@ package main
 
 import (
 	"fmt"
+	"sync"
+	"sync/atomic"
 	"go/constant"
 	"go/token"
 	"go/types"
@@ -352,6 +354,9 @@ func (r *run) equalsV(t types.Type, x, y value) value {
 		}
 		if x.sort == SFP {
 			return &sym{sx("fp.eq", x.t, yt), SBool}
+		}
+		if x.t == yt {
+			return true
 		}
 		return &sym{sx("=", x.t, yt), SBool}
 	case *value:
@@ -739,18 +744,37 @@ func (r *run) symBinop(fr *frame, op token.Token, t types.Type, x, y value, inst
 		w := ii.wrapFn()
 		switch op {
 		case token.ADD:
-			return &sym{sx(w, sx("+", a, b)), SInt}
+			if a == "0" {
+				return y
+			}
+			if b == "0" {
+				return x
+			}
+			return &sym{r.wrapIfNeeded(ii, sx("+", a, b)), SInt}
 		case token.SUB:
-			return &sym{sx(w, sx("-", a, b)), SInt}
+			if b == "0" {
+				return x
+			}
+			return &sym{r.wrapIfNeeded(ii, sx("-", a, b)), SInt}
 		case token.MUL:
-			return &sym{sx(w, sx("*", a, b)), SInt}
+			if a == "1" {
+				return y
+			}
+			if b == "1" {
+				return x
+			}
+			if a == "0" || b == "0" {
+				return zero(t)
+			}
+			return &sym{r.wrapIfNeeded(ii, sx("*", a, b)), SInt}
 		case token.QUO, token.REM:
 			if !r.branch(&sym{sx("not", sx("=", b, "0")), SBool}) {
 				panic(targetPanic{msg: "integer divide by zero", pos: fr.pos(instr)})
 			}
 			if op == token.QUO {
 				if ii.signed {
-					return &sym{sx(w, sx("go_quo", a, b)), SInt}
+					// (MinInt / -1 wraps in Go; that single corner is not modelled)
+					return &sym{sx("go_quo", a, b), SInt}
 				}
 				return &sym{sx("div", a, b), SInt}
 			}
@@ -1234,3 +1258,56 @@ func (r *run) numConv(dst, src *types.Basic, x value) value {
 }
 
 var _ = strings.Contains
+
+// wrapIfNeeded asks the solver whether the exact result t can leave the range
+// of the integer type under the current path condition; only then is the
+// modular wrap-around term emitted (mod terms are expensive for the solver).
+func (r *run) wrapIfNeeded(ii intInfo, t string) string {
+	var lo, hi string
+	if ii.signed {
+		lo = smtInt(-1 << (ii.bits - 1))
+		hi = smtInt(1<<(ii.bits-1) - 1)
+		if ii.bits == 64 {
+			lo, hi = "(- 9223372036854775808)", "9223372036854775807"
+		}
+	} else {
+		lo = "0"
+		hi = smtUint(^uint64(0) >> (64 - uint(ii.bits)))
+	}
+	if e := parseSexp(t); e != nil {
+		if r.intervalOf(e).within(typeRange(ii)) {
+			return t
+		}
+	}
+	key := t + "@" + ii.wrapFn() + "@" + traceKey(r.trace)
+	if v, ok := wrapCache.Load(key); ok {
+		if v.(bool) {
+			return sx(ii.wrapFn(), t)
+		}
+		return t
+	}
+	atomic.AddInt64(&gstats.wrapChecks, 1)
+	r.solver.SetTimeout(1500)
+	res := r.solver.CheckWith(sx("or", sx("<", t, lo), sx(">", t, hi)))
+	r.solver.SetTimeout(r.solver.tmoMs)
+	if r.solver.dead {
+		r.inconclusive("solver timeout on overflow check")
+		panic(pathEnd{"solver dead"})
+	}
+	need := res != Unsat
+	wrapCache.Store(key, need)
+	if need {
+		return sx(ii.wrapFn(), t)
+	}
+	return t
+}
+
+var wrapCache sync.Map
+
+func traceKey(tr []int) string {
+	b := make([]byte, len(tr))
+	for i, d := range tr {
+		b[i] = byte('0' + d)
+	}
+	return string(b)
+}
